@@ -740,6 +740,15 @@ def gen_case(rng, uid, unres=False):
         if home[0] == 'aux':
             auxpath = tuple(f'A{uid}x{j}n{d}' for d in range(rng.choice([1, 1, 2])))
         case.refs.append(Ref(j, name, home, after, bare=rng.random() < .5, alias=alias, auxpath=auxpath))
+    if not unres and rng.random() < .25:
+        # callables are often named after what they handle: the referenced name is a substring of the callable's
+        # own (qualified) name - add_Row(self, r: 'Row'), build_Point_parser() ...
+        victim = rng.choice(case.refs).name
+        if rng.random() < .6 or not case.a:
+            case.tname = f'use_{victim}_now'
+        else:
+            j = rng.randrange(case.a)
+            case.chain[j] = ('func', f'make_{victim}_tools')
     return case
 
 
